@@ -149,12 +149,14 @@ impl RawPeer {
         crypto.alpn_protocols = vec![b"hq-29".to_vec()];
         let mut endpoint = quinn::Endpoint::client("0.0.0.0:0".parse().unwrap())?;
         let mut cfg = quinn::ClientConfig::new(Arc::new(crypto));
+        // keep-alives always: a raw peer that is not reading for a while (or is blocked by flow control)
+        // must not be dropped by the server's 15 s idle timeout
+        let mut t = quinn::TransportConfig::default();
+        t.keep_alive_interval(Some(std::time::Duration::from_secs(2)));
         if let Some(w) = stream_window {
-            let mut t = quinn::TransportConfig::default();
             t.stream_receive_window(quinn::VarInt::from_u32(w));
-            t.keep_alive_interval(Some(std::time::Duration::from_secs(2)));
-            cfg.transport_config(Arc::new(t));
         }
+        cfg.transport_config(Arc::new(t));
         endpoint.set_default_client_config(cfg);
         let conn = endpoint.connect(addr, "localhost")?.await?;
         Ok(RawPeer { conn, _endpoint: endpoint })
